@@ -11,18 +11,23 @@ from common import MachineryError, seed, workdir
 def run(tier, rep):
     q = tier == "quick"
     with workdir("C13") as wd:
-        lines, stats = tlc.run("MC_Fusion", fusionpipe.MC_CFG % (3 if q else 4, "PROPERTY AppendOnly"), wd, workers=8, tag="mc", timeout=1800)
+        lines, stats = tlc.run("MC_Fusion", fusionpipe.MC_CFG % (", ".join('"%s"' % c for c in fusionpipe.MC_COMPS["quick"]), 3 if q else 4, "PROPERTY AppendOnly"), wd, workers=8, tag="mc", timeout=1800)
         rep.add_tlc(stats, "exhaustive model check of Fusion.tla, MaxLen=%d" % (3 if q else 4))
         if stats["errors"]:
             # an invariant of the design itself failing is a machinery problem (the spec is ours), not a verdict on the code
             raise MachineryError("Fusion.tla violates its own invariants: " + stats["errors"][0][:400])
         if not q:
             rep.cov["apalache_inductive_invariant"] = apalache_induction(wd)
-        hists, st2 = fusionpipe.histories_from_tlc(wd, 2)
+        hists, st2 = fusionpipe.histories_from_tlc(wd, 2)          # components: a compute unit and a sequencer
         rep.add_tlc(st2, "history generation (all histories of length 2)")
         exhaustive2 = len(hists)
+        if not q:
+            for kinds in ("thorough", "wide"):                      # two compute units + sequencer; compute + sequencer + intersector
+                h3, st3 = fusionpipe.histories_from_tlc(wd, 2, comps=kinds)
+                rep.add_tlc(st3, "history generation (all histories of length 2, components %s)" % fusionpipe.MC_COMPS[kinds])
+                hists += [h for h in h3 if h not in hists]
         for length, n in ((3, 300 if q else 3000), (4, 150 if q else 2000)):
-            hs, st = fusionpipe.histories_from_tlc(wd, length, simulate=n, seed=seed() + length)
+            hs, st = fusionpipe.histories_from_tlc(wd, length, simulate=n, seed=seed() + length, comps="wide")
             rep.add_tlc(st, "history generation (-simulate, length %d)" % length)
             import random
             random.Random(seed() + length).shuffle(hs)
